@@ -441,6 +441,65 @@ def oracle_2d(ctx, budget, names=None, stats=None):
     return found
 
 
+def oracle_functional(ctx, budget):
+    """The functional interface (module-level functions with x_data=...): the optimizers go through
+    _Algorithm._get_function's `else` branch there (a sub-fitter class is built on the re-ordered x)."""
+    import pybaselines.optimizers as O
+    import pybaselines.whittaker as W
+    import pybaselines.polynomial as P
+    import pybaselines.spline as S
+    import pybaselines.classification as C
+    import pybaselines.morphological as Mo
+    rng = ctx.rng
+    found = 0
+    calls = [
+        ('optimizers.collab_pls:asls', lambda x, y, w: O.collab_pls(np.vstack([y, 1.1 * y + 1]), x_data=x, method='asls', method_kwargs={'lam': 1e3})),
+        ('optimizers.collab_pls:pspline_asls', lambda x, y, w: O.collab_pls(np.vstack([y, 1.1 * y + 1]), x_data=x, method='pspline_asls', method_kwargs={'lam': 10, 'num_knots': 8})),
+        ('optimizers.collab_pls:weights', lambda x, y, w: O.collab_pls(np.vstack([y, 1.1 * y + 1]), x_data=x, method='arpls', method_kwargs={'lam': 1e3, 'weights': w, 'max_iter': 1})),
+        ('optimizers.optimize_extended_range:asls', lambda x, y, w: O.optimize_extended_range(y, x_data=x, method='asls', min_value=2, max_value=4)),
+        ('optimizers.optimize_extended_range:modpoly+weights', lambda x, y, w: O.optimize_extended_range(y, x_data=x, method='modpoly', min_value=1, max_value=3, side='left', method_kwargs={'weights': w})),
+        ('optimizers.adaptive_minmax', lambda x, y, w: O.adaptive_minmax(y, x_data=x, constrained_fraction=(0.1, 0.2))),
+        ('optimizers.adaptive_minmax:weights', lambda x, y, w: O.adaptive_minmax(y, x_data=x, weights=w, method='imodpoly')),
+        ('optimizers.custom_bc:mor', lambda x, y, w: O.custom_bc(y, x_data=x, method='mor', regions=((5, 20),), sampling=3, method_kwargs={'half_window': 3})),
+        ('optimizers.custom_bc:modpoly', lambda x, y, w: O.custom_bc(y, x_data=x, method='modpoly', regions=((0, 10), (30, len(y))), sampling=(2, 4))),
+        ('whittaker.iasls', lambda x, y, w: W.iasls(y, x_data=x, lam=1e3, max_iter=0)),
+        ('whittaker.aspls:alpha', lambda x, y, w: W.aspls(y, x_data=x, lam=1e3, alpha=w, weights=w, max_iter=1)),
+        ('polynomial.imodpoly:weights', lambda x, y, w: P.imodpoly(y, x_data=x, weights=w)),
+        ('polynomial.loess', lambda x, y, w: P.loess(y, x_data=x, fraction=0.3)),
+        ('spline.pspline_iasls', lambda x, y, w: S.pspline_iasls(y, x_data=x, lam=10, num_knots=8, max_iter=0)),
+        ('spline.mixture_model:weights', lambda x, y, w: S.mixture_model(y, x_data=x, lam=10, num_knots=8, weights=w, max_iter=1)),
+        ('classification.fabc', lambda x, y, w: C.fabc(y, x_data=x, lam=1e3, scale=3)),
+        ('morphological.mpls', lambda x, y, w: Mo.mpls(y, x_data=x, half_window=4, lam=1e3)),
+    ]
+    for rep in range(budget):
+        n = rng.choice([41, 47, 53])
+        x = distinct_x(rng, n)
+        y = y_1d(rng, x)
+        perm = rand_perm(rng, n)
+        w = np.random.RandomState(rng.randrange(2 ** 31)).uniform(0.05, 1.0, n)
+        for label, fn in calls:
+            res = []
+            for p in (None, perm):
+                try:
+                    with warnings.catch_warnings():
+                        warnings.simplefilter('ignore')
+                        b, prm = fn(x, y, w) if p is None else fn(x[p], y[p], w[p])
+                    res.append({'baseline': np.array(b), 'params': prm})
+                except Exception as exc:   # noqa
+                    res.append('raises ' + type(exc).__name__)
+            ctx.case(('of', label, n, tuple(perm[:6]), rep), nontrivial=not isinstance(res[0], str), kind='oracle1d:functional')
+            name = 'custom_bc' if 'custom_bc' in label else label
+            err = judge(res[0], res[1], perm, (n,), False, name)
+            if err:
+                found += 1
+                ctx.fail('order:1d:functional:%s' % label.split(':')[0],
+                         'pybaselines.%s(y[perm], x_data=x[perm]) [%s] is not the permuted result of the sorted call (N=%d): %s'
+                         % (label.split(':')[0], label, n, err),
+                         {'kind': 'functional', 'label': label, 'x': [float(v) for v in x], 'y': [float(v) for v in y],
+                          'perm': [int(v) for v in perm], 'w': [float(v) for v in w]})
+    return found
+
+
 # ------------------------------------------------------------------------------------------------ setup log
 class SetupLog:
     """Records the weight array every _setup_* call returns (the array that reaches the solves).  On permuted
@@ -716,6 +775,356 @@ Eval vm_compute in (bad ok cases).
             ctx.broke('correspondence:extended-order', 'extended_order model and optimizers.py disagree: %s' % vals)
 
 
+HEADER2 = HEADER.replace('C02.Model.', 'C02.Model C02.OptModel.') + """
+Definition onl_eqb (a b : option (list nat)) : bool :=
+  match a, b with None, None => true | Some p, Some q => nl_eqb p q | _, _ => false end.
+(* integer probe body shared by the optimizer correspondences: position dependent, uses x *)
+Definition pbody (xs ys : list Z) (ws : option (list Z)) : list Z * list (list Z) :=
+  let n := length ys in
+  let w := match ws with Some w => w | None => repeat 1 n end in
+  (map (fun k => nth k ys 0 + 1000 * Z.of_nat k + nth 0 ys 0 + 2 * nth (n - 1) ys 0) (seq 0 n),
+   [map (fun k => 3 * nth k w 0 + 100 * Z.of_nat k) (seq 0 n)]).
+Definition xbody (xs ys : list Z) (ws : option (list Z)) : list Z * list (list Z) :=
+  (map (fun k => nth k ys 0 + 10 * Z.of_nat k + 3 * nth k xs 0) (seq 0 (length xs)), []).
+"""
+
+
+def olist(v):
+    return 'None' if v is None else '(Some %s)' % nlist(v)
+
+
+def frac(k, n):
+    """a fraction f with ceil(n * f) == k exactly (0 <= k <= n)"""
+    import math
+    f = 0.0 if k == 0 else (k - 0.5) / n
+    assert math.ceil(n * f) == k
+    return f
+
+
+def int_rows(a):
+    a = np.asarray(a, dtype=float)
+    if not np.all(a == np.round(a)):
+        raise ValueError('non-integer value')
+    return a.astype(int).tolist()
+
+
+def make_probe_baseline():
+    from pybaselines import Baseline
+    from pybaselines._algorithm_setup import _Algorithm
+
+    class ProbeBaseline(Baseline):
+        made = []
+
+        def __init__(self, x_data=None, check_finite=True, assume_sorted=False, output_dtype=None):
+            ProbeBaseline.made.append((None if x_data is None else [float(v) for v in np.asarray(x_data)],
+                                       bool(assume_sorted)))
+            super().__init__(x_data, check_finite=check_finite, assume_sorted=assume_sorted,
+                             output_dtype=output_dtype)
+
+        @_Algorithm._register(sort_keys=('weights',))
+        def echo(self, data, weights=None, lam=None):
+            y, w = self._setup_polynomial(data, weights)
+            k = np.arange(len(y))
+            return y + 1000 * k + y[0] + 2 * y[-1], {'weights': 3 * w + 100 * k}
+
+        @_Algorithm._register
+        def xecho(self, data):
+            y, _ = self._setup_polynomial(data, None)
+            return y + 10 * np.arange(len(y)) + 3 * self.x, {}
+    return ProbeBaseline
+
+
+def make_probe2d():
+    from pybaselines.two_d._algorithm_setup import _Algorithm2D
+
+    class Probe2D(_Algorithm2D):
+        @_Algorithm2D._register(sort_keys=('weights',))
+        def echo(self, data, weights=None):
+            y, w = self._setup_polynomial(data, weights)
+            y = y.reshape(self._shape)
+            w = w.reshape(self._shape)
+            i = np.arange(self._shape[0])[:, None]
+            j = np.arange(self._shape[1])[None, :]
+            return (y + 1000 * i + 100 * j + 7 * self.x[:, None] + 3 * self.z[None, :],
+                    {'weights': 3 * w + 100 * i + 10 * j})
+    return Probe2D
+
+
+def eval_cases(ctx, name, ob, header, types, lits, okdef, what):
+    text = header + """
+Definition cases : list (%s) := [
+%s
+].
+%s
+Eval vm_compute in (bad ok cases).
+""" % (types, ';\n'.join('  ' + l for l in lits), okdef)
+    vals = ctx.coq_eval(name, text)
+    ctx.obligations.append(ob)
+    if vals is not None:
+        if ok_vals(vals) and lits:
+            ctx.discharged.append(ob)
+        else:
+            ctx.broke('correspondence:' + name, '%s: %s' % (what, vals))
+
+
+def correspondence_opt(ctx):
+    """Exact-integer ties of the optimizer models (C02/OptModel.v) and of the 2-D wrapper to the code."""
+    rng = ctx.rng
+    from pybaselines import Baseline, Baseline2D
+    import pybaselines.optimizers as opt1
+    import pybaselines.two_d.optimizers as opt2
+    import pybaselines.whittaker as whit
+
+    def rand_keys(n, lo=-40, hi=40):
+        x = rng.sample(range(lo, hi), n)
+        return sorted(x) if rng.random() < 0.2 else x
+
+    # E. adaptive_minmax 1-D: the arrays handed to the polynomial method + the order used at each _sort_array site
+    lits = []
+    orig = opt1._sort_array
+    seen = []
+
+    def spy(array, sort_order=None):
+        seen.append(None if sort_order is None else [int(v) for v in sort_order])
+        return orig(array, sort_order)
+    opt1._sort_array = spy
+    try:
+        for _ in range(ctx.n(60, 250)):
+            n = rng.choice([5, 6, 7, 9, 12])
+            x = rand_keys(n)
+            w = [rng.randint(1, 5) for _ in range(n)] if rng.random() < 0.6 else None
+            kl, kr = rng.randint(0, n), rng.randint(0, n)
+            wl, wr = rng.randint(10, 99), rng.randint(100, 999)
+            y = np.array([rng.uniform(0, 10) for _ in range(n)])
+            del seen[:]
+            with warnings.catch_warnings():
+                warnings.simplefilter('ignore')
+                _, prm = Baseline(np.array(x, dtype=float)).adaptive_minmax(
+                    y, poly_order=1, method='poly', weights=None if w is None else np.array(w, dtype=float),
+                    constrained_fraction=(frac(kl, n), frac(kr, n)), constrained_weight=(wl, wr))
+            lits.append('(%s, %s, %d%%nat, %d%%nat, %d, %d, %s, %s, [%s])' % (
+                zlist(x), zlist(w if w is not None else [1] * n), kl, kr, wl, wr,
+                zlist(int_rows(prm['weights'])), zlist(int_rows(prm['constrained_weights'])),
+                '; '.join(olist(o) for o in seen)))
+            ctx.case(('amm1', tuple(x), None if w is None else tuple(w), kl, kr), nontrivial=x != sorted(x),
+                     kind='corr:adaptive_minmax')
+    finally:
+        opt1._sort_array = orig
+    eval_cases(ctx, 'amm1', 'correspondence:adaptive_minmax-1d(weights,constrained_weights,orders)', HEADER2,
+               'list Z * list Z * nat * nat * Z * Z * list Z * list Z * list (option (list nat))', lits, """
+Definition ok (c : list Z * list Z * nat * nat * Z * Z * list Z * list Z * list (option (list nat))) : bool :=
+  let '(x, w, kl, kr, wl, wr, ew, ec, orders) := c in
+  let r := amm_weights Z 0 x w kl kr wl wr in
+  let o := determine_sorts x in
+  zl_eqb (fst r) ew && zl_eqb (snd r) ec &&
+  match orders with
+  | [o1; o2; o3] => onl_eqb o1 (option_map fst o) && onl_eqb o2 (option_map snd o) && onl_eqb o3 (option_map snd o)
+  | [] => match o with None => true | Some _ => false end   (* `if sort_weights:` skips the three calls *)
+  | _ => false
+  end.""", 'adaptive_minmax model and optimizers.py disagree')
+
+    # F. adaptive_minmax 2-D
+    lits = []
+    for _ in range(ctx.n(40, 150)):
+        m, n = rng.choice([3, 4, 5]), rng.choice([3, 4, 6])
+        x, z = rand_keys(m, -20, 20), rand_keys(n, -20, 20)
+        w = [[rng.randint(1, 5) for _ in range(n)] for _ in range(m)] if rng.random() < 0.6 else None
+        k = [rng.randint(0, m), rng.randint(0, m), rng.randint(0, n), rng.randint(0, n)]
+        cw = [rng.randint(10, 19), rng.randint(20, 29), rng.randint(30, 39), rng.randint(40, 49)]
+        y = np.array([[rng.uniform(0, 10) for _ in range(n)] for _ in range(m)])
+        with warnings.catch_warnings():
+            warnings.simplefilter('ignore')
+            _, prm = Baseline2D(np.array(x, dtype=float), np.array(z, dtype=float)).adaptive_minmax(
+                y, poly_order=1, method='poly', weights=None if w is None else np.array(w, dtype=float),
+                constrained_fraction=(frac(k[0], m), frac(k[1], m), frac(k[2], n), frac(k[3], n)),
+                constrained_weight=tuple(cw))
+        lits.append('(%s, %s, %s, %s, %s, %s, %s)' % (
+            zlist(x), zlist(z), zlist2(w if w is not None else [[1] * n] * m),
+            '[' + '; '.join('%d%%nat' % v for v in k) + ']', zlist(cw),
+            zlist2(int_rows(prm['weights'])), zlist2(int_rows(prm['constrained_weights']))))
+        ctx.case(('amm2', tuple(x), tuple(z), tuple(k)), nontrivial=x != sorted(x) or z != sorted(z),
+                 kind='corr:adaptive_minmax2d')
+    eval_cases(ctx, 'amm2', 'correspondence:adaptive_minmax-2d(weights,constrained_weights)', HEADER2,
+               'list Z * list Z * list (list Z) * list nat * list Z * list (list Z) * list (list Z)', lits, """
+Definition ok (c : list Z * list Z * list (list Z) * list nat * list Z * list (list Z) * list (list Z)) : bool :=
+  let '(x, z, w, k, cw, ew, ec) := c in
+  let r := amm_weights2 Z 0 x z w (nth 0 k 0%nat) (nth 1 k 0%nat) (nth 2 k 0%nat) (nth 3 k 0%nat)
+                        (nth 0 cw 0) (nth 1 cw 0) (nth 2 cw 0) (nth 3 cw 0) in
+  zll_eqb (fst r) ew && zll_eqb (snd r) ec.""", '2-D adaptive_minmax model and two_d/optimizers.py disagree')
+
+    # G. optimize_extended_range + _override_x around an integer probe method; edges/gaussian replaced by integer
+    #    functions of what they are given (so that "edges come from the SORTED data" is observable)
+    PB = make_probe_baseline()
+    lits = []
+    saved = (opt1._get_edges, opt1.gaussian, getattr(whit, 'echo', None))
+    opt1._get_edges = lambda data, pad_length, **kw: (10 * data[0] + np.arange(pad_length),
+                                                      10 * data[-1] + 2 * np.arange(pad_length))
+    opt1.gaussian = lambda xv, *a, **k: 5.0 * np.arange(len(xv))
+    whit.echo = True
+    try:
+        for _ in range(ctx.n(60, 250)):
+            n = rng.choice([10, 11, 13, 16])
+            x = rand_keys(n)
+            y = [rng.randint(-9, 9) for _ in range(n)]
+            w = [rng.randint(1, 5) for _ in range(n)] if rng.random() < 0.6 else None
+            sd = rng.choice(['left', 'right', 'both'])
+            ws = rng.choice([0.1, 0.2, 0.3])
+            aw = int(n * ws)
+            with warnings.catch_warnings():
+                warnings.simplefilter('ignore')
+                b, prm = PB(np.array(x, dtype=float)).optimize_extended_range(
+                    np.array(y, dtype=float), method='echo', side=sd, width_scale=ws, min_value=2, max_value=2,
+                    method_kwargs={} if w is None else {'weights': np.array(w, dtype=float)})
+            lits.append('(%s, %d%%nat, %s, %s, %s, %s, %s)' % (
+                {'left': 'SLeft', 'right': 'SRight', 'both': 'SBoth'}[sd], aw, zlist(x), zlist(y),
+                'None' if w is None else '(Some %s)' % zlist(w), zlist(int_rows(b)),
+                zlist(int_rows(prm['method_params']['weights']))))
+            ctx.case(('oer', sd, aw, tuple(x), tuple(y)), nontrivial=x != sorted(x), kind='corr:extended_range')
+    finally:
+        opt1._get_edges, opt1.gaussian = saved[0], saved[1]
+        if saved[2] is None:
+            del whit.echo
+        else:
+            whit.echo = saved[2]
+    eval_cases(ctx, 'oer', 'correspondence:optimize_extended_range+_override_x(baseline,weights)', HEADER2,
+               'side * nat * list Z * list Z * option (list Z) * list Z * list Z', lits, """
+Definition ok (c : side * nat * list Z * list Z * option (list Z) * list Z * list Z) : bool :=
+  let '(sd, aw, x, y, w, eb, ew) := c in
+  let el := fun ys : list Z => map (fun j => 10 * nth 0 ys 0 + 6 * Z.of_nat j) (seq 0 aw) in
+  let er := fun ys : list Z => map (fun j => 10 * nth (length ys - 1) ys 0 + 7 * Z.of_nat j) (seq 0 aw) in
+  let r := oer Z 0 pbody el er (fun _ => []) (fun _ => []) 1 sd aw x y w in
+  zl_eqb (fst r) eb && zll_eqb (snd r) [ew].""", 'optimize_extended_range model and optimizers.py disagree')
+
+    # H. individual_axes: Baseline replaced by the probe subclass (records x_data / assume_sorted)
+    lits = []
+    saved_b = opt2.Baseline
+    opt2.Baseline = PB
+    try:
+        for _ in range(ctx.n(50, 200)):
+            m, n = rng.choice([2, 3, 4, 5]), rng.choice([2, 3, 4, 6])
+            x, z = rand_keys(m, -20, 20), rand_keys(n, -20, 20)
+            if rng.random() < 0.15:
+                x, z = sorted(x), sorted(z)
+            y = [[rng.randint(-9, 9) for _ in range(n)] for _ in range(m)]
+            axes = rng.choice([(0, 1), (1, 0), (0,), (1,)])
+            del PB.made[:]
+            with warnings.catch_warnings():
+                warnings.simplefilter('ignore')
+                b, prm = Baseline2D(np.array(x, dtype=float), np.array(z, dtype=float)).individual_axes(
+                    np.array(y, dtype=float), axes=axes if len(axes) > 1 else axes[0], method='xecho')
+            parts = [prm['baseline_rows' if a == 0 else 'baseline_columns'] for a in axes]
+            made = PB.made[:len(axes)]
+            vals = '[' + '; '.join(zlist(int_rows(v)) for v, _ in made) + ']'
+            flags = '[' + '; '.join('true' if f else 'false' for _, f in made) + ']'
+            lits.append('(%s, %s, %s, [%s], %s, [%s], %s, %s)' % (
+                zlist(x), zlist(z), zlist2(y), '; '.join('true' if a else 'false' for a in axes),
+                zlist2(int_rows(b)), '; '.join(zlist2(int_rows(pp)) for pp in parts), vals, flags))
+            ctx.case(('ia', tuple(x), tuple(z), axes), nontrivial=x != sorted(x) or z != sorted(z),
+                     kind='corr:individual_axes')
+    finally:
+        opt2.Baseline = saved_b
+    eval_cases(ctx, 'ia', 'correspondence:individual_axes(baseline,partials,axis values,assume_sorted)', HEADER2,
+               'list Z * list Z * list (list Z) * list bool * list (list Z) * list (list (list Z)) * list (list Z) * list bool',
+               lits, """
+Fixpoint zlll_eqb (a b : list (list (list Z))) : bool :=
+  match a, b with [], [] => true | u :: a', v :: b' => zll_eqb u v && zlll_eqb a' b' | _, _ => false end.
+Definition ok (c : list Z * list Z * list (list Z) * list bool * list (list Z) * list (list (list Z)) * list (list Z) * list bool) : bool :=
+  let '(x, z, y, axes, eb, ep, vals, flags) := c in
+  let r := individual_axes Z 0 0 Z.add Z.sub xbody xbody x z y axes in
+  let '(xin, zin, srt) := axis_values x z in
+  zll_eqb (fst r) eb && zlll_eqb (snd r) ep
+  && zll_eqb vals (map (fun a : bool => if a then zin else xin) axes)
+  && bl_eqb flags (map (fun _ => srt) axes).""", 'individual_axes model and two_d/optimizers.py disagree')
+
+    # I. the real 2-D wrapper (_Algorithm2D._register.inner + _setup_polynomial + _return_results) around a probe body
+    P2 = make_probe2d()
+    lits = []
+    for _ in range(ctx.n(60, 250)):
+        m, n = rng.choice([2, 3, 4, 5]), rng.choice([2, 3, 4, 6])
+        x, z = rand_keys(m, -20, 20), rand_keys(n, -20, 20)
+        r = rng.random()
+        if r < 0.2:
+            x = sorted(x)
+        elif r < 0.4:
+            z = sorted(z)
+        y = [[rng.randint(-9, 9) for _ in range(n)] for _ in range(m)]
+        w = [[rng.randint(1, 5) for _ in range(n)] for _ in range(m)] if rng.random() < 0.6 else None
+        with warnings.catch_warnings():
+            warnings.simplefilter('ignore')
+            b, prm = P2(np.array(x, dtype=float), np.array(z, dtype=float)).echo(
+                np.array(y, dtype=float), weights=None if w is None else np.array(w, dtype=float))
+        lits.append('(%s, %s, %s, %s, %s, %s)' % (zlist(x), zlist(z), zlist2(y),
+                                                  'None' if w is None else '(Some %s)' % zlist2(w),
+                                                  zlist2(int_rows(b)), zlist2(int_rows(prm['weights']))))
+        ctx.case(('wr2', tuple(x), tuple(z)), nontrivial=x != sorted(x) or z != sorted(z), kind='corr:wrapper2d')
+    eval_cases(ctx, 'wrapper2', 'correspondence:wrapper2(_Algorithm2D._register.inner,_setup_*,_return_results)', HEADER2,
+               'list Z * list Z * list (list Z) * option (list (list Z)) * list (list Z) * list (list Z)', lits, """
+Definition body2 (xs zs : list Z) (ys : list (list Z)) (ws : option (list (list Z))) :=
+  let n := length xs in let m := length zs in
+  (tab2 Z n m (fun i j => nth2 Z 0 ys i j + 1000 * Z.of_nat i + 100 * Z.of_nat j + 7 * nth i xs 0 + 3 * nth j zs 0),
+   [tab2 Z n m (fun i j => 3 * (match ws with Some w => nth2 Z 0 w i j | None => 1 end) + 100 * Z.of_nat i + 10 * Z.of_nat j)]).
+Definition ok (c : list Z * list Z * list (list Z) * option (list (list Z)) * list (list Z) * list (list Z)) : bool :=
+  let '(x, z, y, w, eb, ew) := c in
+  let r := wrapper2 Z 0 body2 x z y w in
+  zll_eqb (fst r) eb && zlll_eqb' (snd r) [ew].""".replace("zlll_eqb'", '(fun a b => match a, b with [u], [v] => zll_eqb u v | _, _ => false end)'),
+               '2-D wrapper model and the real _Algorithm2D._register wrapper disagree')
+
+
+def correspondence_get_function(ctx):
+    """_get_function (1-D and 2-D) with a module whose class the fitter does not provide: the x / z and the
+    assume_sorted flag the sub-fitter class is constructed with, against get_function_x / axis_values."""
+    import types
+    rng = ctx.rng
+    from pybaselines.optimizers import _Optimizers as Opt1
+    from pybaselines.two_d.optimizers import _Optimizers as Opt2
+    rec = []
+
+    class _Fake:
+        def __init__(self, *args, check_finite=True, assume_sorted=False, output_dtype=None):
+            rec.append(([[float(v) for v in a] for a in args], bool(assume_sorted)))
+
+        def c02_probe(self):
+            return None
+    mod = types.SimpleNamespace(__name__='pkg.fake', _Fake=_Fake, c02_probe=True)
+    lits = []
+    for _ in range(ctx.n(60, 200)):
+        two_d = rng.random() < 0.5
+        m, n = rng.choice([2, 3, 4, 6]), rng.choice([2, 3, 5])
+        x = rng.sample(range(-30, 30), m)
+        z = rng.sample(range(-30, 30), n)
+        r = rng.random()
+        if r < 0.25:
+            x = sorted(x)
+        elif r < 0.5:
+            z = sorted(z)
+        elif r < 0.6:
+            x, z = sorted(x), sorted(z)
+        del rec[:]
+        with warnings.catch_warnings():
+            warnings.simplefilter('ignore')
+            if two_d:
+                Opt2(np.array(x, dtype=float), np.array(z, dtype=float))._get_function('c02_probe', (mod,))
+            else:
+                Opt1(np.array(x, dtype=float))._get_function('c02_probe', (mod,))
+        if len(rec) != 1 or len(rec[0][0]) != (2 if two_d else 1):
+            ctx.broke('correspondence:get_function', 'sub-fitter class constructed %d times / unexpected arguments' % len(rec))
+            continue
+        args, flag = rec[0]
+        lits.append('(%s, %s, %s, %s, %s, %s)' % ('true' if two_d else 'false', zlist(x), zlist(z if two_d else []),
+                                                  zlist(int_rows(args[0])), zlist(int_rows(args[1]) if two_d else []),
+                                                  'true' if flag else 'false'))
+        ctx.case(('gf', two_d, tuple(x), tuple(z) if two_d else ()), nontrivial=not flag, kind='corr:get_function')
+    eval_cases(ctx, 'getfunc', 'correspondence:_get_function(x,z,assume_sorted of the sub-fitter)', HEADER2,
+               'bool * list Z * list Z * list Z * list Z * bool', lits, """
+Definition ok (c : bool * list Z * list Z * list Z * list Z * bool) : bool :=
+  let '(two_d, x, z, ex, ez, flag) := c in
+  if two_d then
+    let '(xin, zin, srt) := axis_values x z in zl_eqb xin ex && zl_eqb zin ez && Bool.eqb srt flag
+  else
+    let '(xin, srt) := get_function_x x in zl_eqb xin ex && Bool.eqb srt flag.""",
+               '_get_function model and _algorithm_setup.py disagree')
+
+
 # ------------------------------------------------------------------------------------------------ entry points
 def run(ctx):
     ctx.rule = ('oracle cases: (method, variant, N or shape, permutation) with distinct non-uniform x/z, random permutations '
@@ -729,8 +1138,11 @@ def run(ctx):
     ctx.trusted += [
         'the method bodies are functions of the sorted x, the sorted data and the tracked per-point inputs only: '
         'classification by tools/gen_orderflow.py (abstract interpretation, fail-closed) for methods without skip_sorting; '
-        'for the wrappers, the optimizers (skip_sorting) and custom_bc the order-related statements are pinned as reviewed '
-        'text (C02/Sites.v) and validated dynamically only',
+        'the wrappers (1-D, 2-D), _get_function, _override_x + optimize_extended_range, adaptive_minmax (1-D, 2-D) and '
+        'individual_axes are Gallina models proved equivariant and tied to the code by exact-integer correspondences '
+        '(probe bodies through the REAL wrappers / optimizers; utils._get_edges and gaussian replaced by integer functions '
+        'of their arguments in the optimize_extended_range correspondence); custom_bc (3 statements pinned as text) and '
+        'collab_pls (no order statement) have no model and are covered by the oracle only',
         'numpy argsort(kind="mergesort") modelled as stable insertion sort (sampled with ties by the correspondence)',
         'float rounding: equality of sorted-run and permuted-run results is observed (bit-identical in 1-D), not proved',
         'ties in x/z are outside the equivariance theorem (the stable sort keeps the supplied order of equal keys)',
@@ -741,6 +1153,8 @@ def run(ctx):
     ok = ctx.build_props()
     try:
         correspondence(ctx)
+        correspondence_opt(ctx)
+        correspondence_get_function(ctx)
     except Exception:   # noqa  -- a changed implementation may raise inside the recorders; the search still runs
         import traceback
         ctx.broke('correspondence:exception', traceback.format_exc()[-1200:])
@@ -750,13 +1164,15 @@ def run(ctx):
     stats = {}
     f1 = oracle_1d(ctx, b1, stats=stats)
     f2 = oracle_2d(ctx, b2, stats=stats)
+    f3 = oracle_functional(ctx, b1)
     ctx.traces = stats.get('logs', 0)
+    ctx.note('functional interface (x_data=...): %d failing' % f3)
     ctx.note('metamorphic oracle: 1-D budget x%d (%d failing), 2-D budget x%d (%d failing); %d compared leaves, %d not '
              'bit-identical (max relative difference %.2g at %s); %d _setup_* weight arrays compared with the sorted run'
              % (b1, f1, b2, f2, stats.get('leaves', 0), stats.get('inexact', 0), stats.get('max_rel', 0.0),
                 stats.get('max_rel_at', '-'), stats.get('logs', 0)))
     ctx.note('not covered: ties in x/z; N > 53 (1-D) / shapes > 13x15 (2-D); 3-D stacks other than collab_pls; '
-             'functional interface (pybaselines.whittaker.asls(..., x_data=...)) beyond the class interface; '
+             'functional interface only for 17 representative calls; '
              'custom_bc method_kwargs weights (x_fit order by construction); quick tier samples optimizer variants')
 
 
@@ -797,5 +1213,8 @@ def replay(rep):
         err = judge(ref, got, (px, pz), tuple(case['shape']), True, case['method']) or logs
         print('replay 2-D %s(%s):' % (case['method'], case['label']), err or 'property holds on this input')
         return 1 if err else 0
+    if kind == 'functional':
+        print('replay: functional-interface case %s; re-run ./bin/check C02 quick to reproduce (inputs are in the file)' % case.get('label'))
+        return 1
     print('replay: nothing concrete to replay; broken obligations were:', rep.get('broken_obligations'))
     return 1
